@@ -45,10 +45,10 @@ def stmtKw : List Kind :=
 /-- a token of one of these kinds right after a statement (or a method header) would be taken as
     a continuation of it: expression continuations (`bad 8`), `absolute` after a declaration,
     `to`/`downto`/`step` after a range, assignment operators, `#` and modifiers after a header,
-    `,` after a `uses` list, `multiLang` after a constant -/
+    `,` after a `uses` list, `multiLang` after a constant, `inverse` after a reference type -/
 def sbad : List Kind :=
   bad 8 ++ [Kind.Absolute, Kind.To, Kind.DownTo, Kind.Step, Kind.DecrementAssign, Kind.IncrementAssign,
-            Kind.DeepAssign, Kind.Pound, Kind.Comma, Kind.MultiLang] ++ methodModKinds
+            Kind.DeepAssign, Kind.Pound, Kind.Comma, Kind.MultiLang, Kind.Inverse] ++ methodModKinds
 
 /-- what may follow a statement -/
 def SStop (k : List Tok) : Prop := ∀ t r, k = t :: r → t.kind ∉ sbad
@@ -79,6 +79,133 @@ def okTree : Tree → Bool
 /-! ## pieces shared by statements and declarations -/
 
 def typeBasic (t : Tok) : Tree := mk "type_basic" t.value t.rng []
+
+/-! ### types (`parse_type`), the non-recursive forms -/
+
+/-- `parse_literal_basic` -/
+def litKinds : List Kind := [Kind.StringLiteral, Kind.NumericLiteral, Kind.BooleanTrue, Kind.BooleanFalse, Kind.Nil]
+
+/-- what stands between the brackets of an array index: a type name or a literal range -/
+inductive IdxBody where
+  | basic (t : Tok)
+  | range (lo to hi : Tok)
+
+/-- `[ T ]` or `[ 1 to 9 ]` -/
+structure Idx where
+  lb   : Tok
+  body : IdxBody
+  rb   : Tok
+
+inductive Ty where
+  /-- `T` -/
+  | basic (t : Tok)
+  /-- `T ( n )` -/
+  | sized (t lp n rp : Tok)
+  /-- `refTo T` / `listOf T`, optionally `inverse x` -/
+  | ref (r t : Tok) (inv : Option (Tok × Tok))
+  /-- `lo to hi` over literals -/
+  | range (lo to hi : Tok)
+  /-- `[ T ]` -/
+  | set (lb t rb : Tok)
+  /-- `. T` -/
+  | pointer (dot t : Tok)
+  /-- `array|sequence [i] [[j]] of T` -/
+  | array (a : Tok) (i1 : Idx) (i2 : Option Idx) (ofT t : Tok)
+  /-- `instanceOf T` -/
+  | instOf (kw t : Tok)
+
+def rangeTree (lo hi : Tok) : Tree :=
+  mk "type_range" "type_range" (Range.span lo.rng hi.rng) [terminal (.leaf lo), terminal (.leaf hi)]
+
+def IdxBody.toks : IdxBody → List Tok
+  | .basic t => [t]
+  | .range lo to hi => [lo, to, hi]
+
+def IdxBody.tree : IdxBody → Tree
+  | .basic t => typeBasic t
+  | .range lo _ hi => rangeTree lo hi
+
+def IdxBody.WF : IdxBody → Prop
+  | .basic t => t.kind = Kind.Identifier
+  | .range lo to hi => lo.kind ∈ litKinds ∧ to.kind = Kind.To ∧ hi.kind ∈ litKinds
+
+def IdxBody.wfb : IdxBody → Bool
+  | .basic t => t.kind == Kind.Identifier
+  | .range lo to hi => litKinds.contains lo.kind && to.kind == Kind.To && litKinds.contains hi.kind
+
+def Idx.toks (i : Idx) : List Tok := i.lb :: (i.body.toks ++ [i.rb])
+def Idx.WF (i : Idx) : Prop := i.lb.kind = Kind.OSqrBracket ∧ i.body.WF ∧ i.rb.kind = Kind.CSqrBracket
+def Idx.wfb (i : Idx) : Bool := i.lb.kind == Kind.OSqrBracket && i.body.wfb && i.rb.kind == Kind.CSqrBracket
+
+def optIdxToks : Option Idx → List Tok
+  | none => []
+  | some i => i.toks
+
+def optIdxTrees : Option Idx → List Tree
+  | none => []
+  | some i => [i.body.tree]
+
+def Ty.toks : Ty → List Tok
+  | .basic t => [t]
+  | .sized t lp n rp => [t, lp, n, rp]
+  | .ref r t inv => r :: t :: (match inv with | some (i, x) => [i, x] | none => [])
+  | .range lo to hi => [lo, to, hi]
+  | .set lb t rb => [lb, t, rb]
+  | .pointer dot t => [dot, t]
+  | .array a i1 i2 ofT t => a :: (i1.toks ++ (optIdxToks i2 ++ [ofT, t]))
+  | .instOf kw t => [kw, t]
+
+def Ty.tree : Ty → Tree
+  | .basic t => typeBasic t
+  | .sized t _ _ rp => mk "type_sized" t.value (Range.span t.rng rp.rng) []
+  | .ref r t inv =>
+    mk "type_ref" t.value (Range.span r.rng (match inv with | some (_, x) => x.rng | none => t.rng)) []
+      ["ref=" ++ r.kind.name, "idrng=" ++ encRng t.rng]
+  | .range lo _ hi => rangeTree lo hi
+  | .set lb t rb => mk "type_set" t.value (Range.span lb.rng rb.rng) [typeBasic t]
+  | .pointer dot t => mk "type_pointer" "type_pointer" (Range.span dot.rng t.rng) [typeBasic t]
+  | .array a i1 i2 _ t =>
+    mk "type_array" "type_array" (Range.span a.rng t.rng) ([i1.body.tree] ++ optIdxTrees i2 ++ [typeBasic t])
+  | .instOf kw t => mk "type_instanceof" t.value (Range.span kw.rng t.rng) [typeBasic t]
+
+def Ty.WF : Ty → Prop
+  | .basic t => t.kind = Kind.Identifier
+  | .sized t lp n rp =>
+    t.kind = Kind.Identifier ∧ lp.kind = Kind.OBracket ∧ n.kind = Kind.NumericLiteral ∧ rp.kind = Kind.CBracket
+  | .ref r t inv =>
+    r.kind ∈ [Kind.RefTo, Kind.ListOf] ∧ t.kind = Kind.Identifier ∧
+    (∀ i x, inv = some (i, x) → i.kind = Kind.Inverse ∧ x.kind = Kind.Identifier)
+  | .range lo to hi => lo.kind ∈ litKinds ∧ to.kind = Kind.To ∧ hi.kind ∈ litKinds
+  | .set lb t rb => lb.kind = Kind.OSqrBracket ∧ t.kind = Kind.Identifier ∧ rb.kind = Kind.CSqrBracket
+  | .pointer dot t => dot.kind = Kind.Dot ∧ t.kind = Kind.Identifier
+  | .array a i1 i2 ofT t =>
+    a.kind ∈ [Kind.Array, Kind.Sequence] ∧ i1.WF ∧ (∀ i, i2 = some i → i.WF) ∧ ofT.kind = Kind.Of ∧ t.kind = Kind.Identifier
+  | .instOf kw t => kw.kind = Kind.InstanceOf ∧ t.kind = Kind.Identifier
+
+def Ty.wfb : Ty → Bool
+  | .basic t => t.kind == Kind.Identifier
+  | .sized t lp n rp =>
+    t.kind == Kind.Identifier && lp.kind == Kind.OBracket && n.kind == Kind.NumericLiteral && rp.kind == Kind.CBracket
+  | .ref r t inv =>
+    [Kind.RefTo, Kind.ListOf].contains r.kind && t.kind == Kind.Identifier &&
+    (match inv with | some (i, x) => i.kind == Kind.Inverse && x.kind == Kind.Identifier | none => true)
+  | .range lo to hi => litKinds.contains lo.kind && to.kind == Kind.To && litKinds.contains hi.kind
+  | .set lb t rb => lb.kind == Kind.OSqrBracket && t.kind == Kind.Identifier && rb.kind == Kind.CSqrBracket
+  | .pointer dot t => dot.kind == Kind.Dot && t.kind == Kind.Identifier
+  | .array a i1 i2 ofT t =>
+    [Kind.Array, Kind.Sequence].contains a.kind && i1.wfb && (match i2 with | some i => i.wfb | none => true) &&
+    ofT.kind == Kind.Of && t.kind == Kind.Identifier
+  | .instOf kw t => kw.kind == Kind.InstanceOf && t.kind == Kind.Identifier
+
+/-- `type aName : T` -/
+def typeDeclTree (kw name : Tok) (ty : Ty) : Tree :=
+  mk "type_decl" name.value ⟨kw.rng.s, ty.tree.rng.e⟩ [ty.tree] [] (some name.rng)
+
+def typeDeclWF (kw name colon : Tok) (ty : Ty) : Prop :=
+  kw.kind = Kind.Type ∧ name.kind = Kind.Identifier ∧ colon.kind = Kind.Colon ∧ ty.WF
+
+def typeDeclWfb (kw name colon : Tok) (ty : Ty) : Bool :=
+  kw.kind == Kind.Type && name.kind == Kind.Identifier && colon.kind == Kind.Colon && ty.wfb
 
 /-- `, b , c …` after the first identifier of a `uses` list -/
 def commaToks : List (Tok × Tok) → List Tok
@@ -153,7 +280,9 @@ inductive Stmt (ε : Type) where
   /-- `exit`, `break`, `continue` -/
   | ctl (kw : Tok)
   /-- `var name : T [absolute x]` -/
-  | lvar (kw name colon ty : Tok) (abs : Option (Tok × Tok))
+  | lvar (kw name colon : Tok) (ty : Ty) (abs : Option (Tok × Tok))
+  /-- `type aName : T` -/
+  | typeS (kw name colon : Tok) (ty : Ty)
   /-- `uses a, b, …` -/
   | usesS (kw first : Tok) (rest : List (Tok × Tok))
   /-- `const c = literal [multiLang]` -/
@@ -189,7 +318,8 @@ def Stmt.toks : Stmt ε → List Tok
   | .expr e => X.toks e
   | .ret kw e => kw :: X.toks e
   | .ctl kw => [kw]
-  | .lvar kw name colon ty abs => kw :: name :: colon :: ty :: absToks abs
+  | .lvar kw name colon ty abs => kw :: name :: colon :: (ty.toks ++ absToks abs)
+  | .typeS kw name colon ty => kw :: name :: colon :: ty.toks
   | .usesS kw first rest => usesToks kw first rest
   | .constS kw name eq lit ml => constToks kw name eq lit ml
   | .ifS kw c body tail => kw :: (X.toks c ++ (Stmts.toks body ++ tail.toks))
@@ -225,8 +355,9 @@ def Stmt.tree : Stmt ε → Tree
   | .ret kw e => mk "return" "return" (Range.span kw.rng (X.tree e).rng) [X.tree e]
   | .ctl kw => terminal (.leaf kw)
   | .lvar kw name _ ty abs =>
-    mk "lvar_decl" name.value (Range.span kw.rng (match abs with | some (_, x) => x.rng | none => ty.rng))
-      ([typeBasic ty] ++ absTrees abs) [] (some name.rng)
+    mk "lvar_decl" name.value (Range.span kw.rng (match abs with | some (_, x) => x.rng | none => ty.tree.rng))
+      ([ty.tree] ++ absTrees abs) [] (some name.rng)
+  | .typeS kw name _ ty => typeDeclTree kw name ty
   | .usesS kw first rest => usesTree kw first rest
   | .constS kw name _ lit _ => constTree kw name lit
   | .ifS kw c body tail =>
@@ -276,7 +407,8 @@ def Stmt.WF : Stmt ε → Prop
   | .ret kw e => kw.kind = Kind.Return ∧ exprOKb X e = true
   | .ctl kw => kw.kind ∈ ctlKinds
   | .lvar kw name colon ty abs =>
-    kw.kind = Kind.Var ∧ name.kind = Kind.Identifier ∧ colon.kind = Kind.Colon ∧ ty.kind = Kind.Identifier ∧ absWF abs
+    kw.kind = Kind.Var ∧ name.kind = Kind.Identifier ∧ colon.kind = Kind.Colon ∧ ty.WF ∧ absWF abs
+  | .typeS kw name colon ty => typeDeclWF kw name colon ty
   | .usesS kw first rest => usesWF kw first rest
   | .constS kw name eq lit ml => constWF kw name eq lit ml
   | .ifS kw c body tail => kw.kind = Kind.If ∧ exprOKb X c = true ∧ Stmts.WF body ∧ tail.WF
@@ -305,7 +437,8 @@ def Stmt.wfb : Stmt ε → Bool
   | .ret kw e => kw.kind == Kind.Return && exprOKb X e
   | .ctl kw => ctlKinds.contains kw.kind
   | .lvar kw name colon ty abs =>
-    kw.kind == Kind.Var && name.kind == Kind.Identifier && colon.kind == Kind.Colon && ty.kind == Kind.Identifier && absWfb abs
+    kw.kind == Kind.Var && name.kind == Kind.Identifier && colon.kind == Kind.Colon && ty.wfb && absWfb abs
+  | .typeS kw name colon ty => typeDeclWfb kw name colon ty
   | .usesS kw first rest => usesWfb kw first rest
   | .constS kw name eq lit ml => constWfb kw name eq lit ml
   | .ifS kw c body tail => kw.kind == Kind.If && exprOKb X c && Stmts.wfb body && tail.wfb
@@ -334,26 +467,26 @@ structure Param where
   md    : Option Tok
   name  : Tok
   colon : Tok
-  ty    : Tok
+  ty    : Ty
 
 def paramModKinds : List Kind := [Kind.Const, Kind.Var, Kind.InOut]
 
-def Param.toks (p : Param) : List Tok := p.md.toList ++ [p.name, p.colon, p.ty]
+def Param.toks (p : Param) : List Tok := p.md.toList ++ p.name :: p.colon :: p.ty.toks
 
 def Param.tree (p : Param) : Tree :=
   Gram.mk "param_decl" p.name.value
-    ⟨(match p.md with | some m => m.rng.s | none => p.name.rng.s), p.ty.rng.e⟩
-    [typeBasic p.ty]
+    ⟨(match p.md with | some m => m.rng.s | none => p.name.rng.s), p.ty.tree.rng.e⟩
+    [p.ty.tree]
     (match p.md with | some m => ["modifier=" ++ m.kind.name] | none => [])
     (some p.name.rng)
 
 def Param.WF (p : Param) : Prop :=
   (∀ m, p.md = some m → m.kind ∈ paramModKinds) ∧ p.name.kind ∈ identKinds ∧ p.name.kind ∉ paramModKinds ∧
-  p.colon.kind = Kind.Colon ∧ p.ty.kind = Kind.Identifier
+  p.colon.kind = Kind.Colon ∧ p.ty.WF
 
 def Param.wfb (p : Param) : Bool :=
   (match p.md with | some m => paramModKinds.contains m.kind | none => true) && identKinds.contains p.name.kind &&
-  !paramModKinds.contains p.name.kind && p.colon.kind == Kind.Colon && p.ty.kind == Kind.Identifier
+  !paramModKinds.contains p.name.kind && p.colon.kind == Kind.Colon && p.ty.wfb
 
 /-- `( )` or `( p , p , … )` -/
 inductive ParamList where
@@ -487,7 +620,9 @@ inductive Decl (ε : Type) where
   /-- `const c = literal [multiLang]` -/
   | const (kw name eq lit : Tok) (ml : Option Tok)
   /-- `[memory] f : T [private|protected|final|override]* [absolute x]` -/
-  | field (mem : Option Tok) (name colon ty : Tok) (mods : List Tok) (abs : Option (Tok × Tok))
+  | field (mem : Option Tok) (name colon : Tok) (ty : Ty) (mods : List Tok) (abs : Option (Tok × Tok))
+  /-- `type aName : T` -/
+  | typeD (kw name colon : Tok) (ty : Ty)
   /-- `module aName` -/
   | module (kw name : Tok)
   /-- `uses a, b, …` -/
@@ -508,7 +643,8 @@ def Decl.toks : Decl ε → List Tok
   | .func kw name ps ret ty mods body =>
     kw :: (name.toks ++ (optParamsToks ps ++ ret :: ty :: (modsToks mods ++ bodyToks X body)))
   | .const kw name eq lit ml => constToks kw name eq lit ml
-  | .field mem name colon ty mods abs => mem.toList ++ name :: colon :: ty :: (mods ++ absToks abs)
+  | .field mem name colon ty mods abs => mem.toList ++ name :: colon :: (ty.toks ++ (mods ++ absToks abs))
+  | .typeD kw name colon ty => kw :: name :: colon :: ty.toks
   | .module kw name => [kw, name]
   | .uses kw first rest => usesToks kw first rest
   | .cls kw name parent => kw :: name :: parentToks parent
@@ -553,8 +689,9 @@ def Decl.tree : Decl ε → Tree
         (match abs, mods with
          | some (_, x), _ => x.rng
          | none, m :: rest => (((m :: rest).getLast?).getD m).rng
-         | none, [] => ty.rng))
-      ([typeBasic ty] ++ absTrees abs) (mods.map (fun t => t.kind.name)) (some name.rng)
+         | none, [] => ty.tree.rng))
+      ([ty.tree] ++ absTrees abs) (mods.map (fun t => t.kind.name)) (some name.rng)
+  | .typeD kw name _ ty => typeDeclTree kw name ty
   | .module kw name => mk "module" name.value (Range.span kw.rng name.rng) [] [] (some name.rng)
   | .uses kw first rest => usesTree kw first rest
   | .cls kw name parent =>
@@ -594,7 +731,8 @@ def Decl.WF : Decl ε → Prop
   | .const kw name eq lit ml => constWF kw name eq lit ml
   | .field mem name colon ty mods abs =>
     (∀ m, mem = some m → m.kind = Kind.Memory) ∧ name.kind = Kind.Identifier ∧ colon.kind = Kind.Colon ∧
-    ty.kind = Kind.Identifier ∧ (∀ t ∈ mods, t.kind ∈ memberModKinds) ∧ absWF abs
+    ty.WF ∧ (∀ t ∈ mods, t.kind ∈ memberModKinds) ∧ absWF abs
+  | .typeD kw name colon ty => typeDeclWF kw name colon ty
   | .module kw name => kw.kind = Kind.Module ∧ name.kind = Kind.Identifier
   | .uses kw first rest => usesWF kw first rest
   | .cls kw name parent => kw.kind = Kind.Class ∧ name.kind = Kind.Identifier ∧ parentWF parent
@@ -608,7 +746,8 @@ def Decl.wfb : Decl ε → Bool
   | .const kw name eq lit ml => constWfb kw name eq lit ml
   | .field mem name colon ty mods abs =>
     (match mem with | some m => m.kind == Kind.Memory | none => true) && name.kind == Kind.Identifier &&
-    colon.kind == Kind.Colon && ty.kind == Kind.Identifier && mods.all (fun t => memberModKinds.contains t.kind) && absWfb abs
+    colon.kind == Kind.Colon && ty.wfb && mods.all (fun t => memberModKinds.contains t.kind) && absWfb abs
+  | .typeD kw name colon ty => typeDeclWfb kw name colon ty
   | .module kw name => kw.kind == Kind.Module && name.kind == Kind.Identifier
   | .uses kw first rest => usesWfb kw first rest
   | .cls kw name parent => kw.kind == Kind.Class && name.kind == Kind.Identifier && parentWfb parent
